@@ -274,8 +274,11 @@ def argparseGo (table : List Opt) : Nat → List String → Dict → Option Dict
           (vals.mapM (convArg k)).bind (fun as => argparseGo table fuel after (setKey d o.name (.list as)))
         else none
 
-def argparseLong (table : List Opt) (toks : List String) (d : Dict) : Option Dict :=
-  argparseGo table toks.length toks d
+/-- `excl`: mutually exclusive groups (argparse exits if two members of a group are given) -/
+def argparseLong (table : List Opt) (toks : List String) (d : Dict) (excl : List (List String) := []) : Option Dict :=
+  let seen := (toks.filter (fun t => t.startsWith "--")).map (fun t => (t.drop 2).toString)
+  if excl.any (fun g => decide ((g.filter (fun n => seen.contains n)).length ≥ 2)) then none
+  else argparseGo table toks.length toks d
 
 def defaultsOf (table : List Opt) : Dict := table.map (fun o => (o.name, o.dflt))
 
